@@ -25,8 +25,8 @@ type job struct {
 type jobResult struct {
 	ID     int    `json:"id"`
 	Exit   int    `json:"exit"`
-	Stdout string `json:"stdout"`
-	Stderr string `json:"stderr"`
+	Stdout []byte `json:"stdout"` // base64 in JSON: output may contain ill-formed UTF-8
+	Stderr []byte `json:"stderr"`
 	Panic  string `json:"panic,omitempty"`
 }
 
@@ -107,9 +107,9 @@ func runJob(j job) (res jobResult) {
 	return
 }
 
-func slurp(f *os.File) string {
+func slurp(f *os.File) []byte {
 	if f == nil {
-		return ""
+		return nil
 	}
 	name := f.Name()
 	f.Close()
@@ -118,5 +118,5 @@ func slurp(f *os.File) string {
 	if len(b) > 1<<16 {
 		b = b[:1<<16]
 	}
-	return string(b)
+	return b
 }
